@@ -15,10 +15,68 @@ CLAIMS = {
         technique=TECH, design_ref='DESIGN.md 4 (C17)'),
 }
 
+
+_COMMON_NOTE = ('ASSUMED (never counted as proved, listed in evidence.trusted_base / assumed_contracts): pandas (DataFrame abstraction in '
+                'pyvc/pandas_model.py), py_stringmatching tokenizers and measures (contracts/externals.py), joblib Parallel, pyprind. '
+                'BOUNDED stand-ins (exhaustive small scope + seeded random on the real code, evidence.bounded_standins): '
+                'gen_token_ordering_for_tables, order_using_token_ordering, PositionIndex.build, PositionFilter.find_candidates; '
+                'the lemma inj_image (injective ranks preserve intersection sizes) is assumed mathematics. '
+                'Scope so far: Jaccard / cosine / Dice joins (set_sim_join and the three *_join_py drivers); the overlap, '
+                'overlap-coefficient and edit-distance joins, the filter classes, filter_candset and apply_matcher are not yet under '
+                'contract. Cython twins are out of reach. Trusted: pyvc VC generator, z3/cvc5.')
+
+CLAIMS.update({
+    'C01': dict(
+        text='For jaccard/cosine/dice joins: the four pruning formulas of filter_utils are proved safe in a float model that '
+             'over-approximates IEEE-754 (all sizes <= 2^31, all thresholds in (0,1]); set_sim_join is proved, for every pair of tables, '
+             'to emit a row for every pair whose similarity satisfies the comparison raw and rounded (inductive invariants with ghost '
+             'origin maps), given the contracts of its callees; the *_join_py drivers are proved to relay exactly those rows on the '
+             'serial path.',
+        note=_COMMON_NOTE, technique=TECH, design_ref='DESIGN.md 4 (C01)'),
+    'C02': dict(
+        text='set_sim_join is proved to emit only pairs whose reported (4-decimal) score satisfies the comparison, each key pair at most '
+             'once (ghost origin map is injective), with _sim_score = round(sim, 4) or 1.0 for admitted empty pairs, and every row built '
+             'from the two source rows it names; drivers relay rows unchanged behind the _id column.',
+        note=_COMMON_NOTE, technique=TECH, design_ref='DESIGN.md 4 (C02)'),
+    'C08': dict(
+        text='get_pairs_with_missing_value is proved to return exactly one row for every pair with a missing join value on at least one '
+             'side, of the header width (pandas precondition), NaN score iff requested; drivers are proved to run the join on the '
+             'dropna-projected arrays and to append the missing pairs iff allow_missing; no exception for any distribution of missing values.',
+        note=_COMMON_NOTE, technique=TECH, design_ref='DESIGN.md 4 (C08)'),
+    'C09': dict(
+        text='set_sim_join: a right row without tokens is paired with exactly the cached empty left rows iff allow_empty, score 1.0, '
+             'whatever threshold and operator; a pair with one empty side is never emitted (proved as part of the sound/complete invariants).',
+        note=_COMMON_NOTE, technique=TECH, design_ref='DESIGN.md 4 (C09)'),
+    'C10': dict(
+        text='split_table is proved (float model) to cut a table into contiguous chunks with boundaries b(0)=0 <= ... <= b(k)=len; '
+             'get_num_processes_to_launch >= 1; drivers: every chunk call satisfies the precondition of set_sim_join, pd.concat gets equal '
+             'headers, _id = 0..n-1 on all paths.',
+        note=_COMMON_NOTE + ' Equality of the parallel result with the serial one and invariance under row permutation are not '
+             'derived deductively (the partition lemma needs induction; real scheduling is outside any contract).',
+        technique=TECH, design_ref='DESIGN.md 4 (C10)'),
+    'C11': dict(
+        text='remove_redundant_attrs (order-preserving de-duplication without the key), get_attrs_to_project, '
+             'find_output_attribute_indices, get_output_row_from_tables, get_output_header_from_tables are proved against full functional '
+             'specifications; set_sim_join and get_pairs_with_missing_value are proved to produce the documented header and rows whose '
+             'cells equal the named attributes of the source rows; drivers add _id and keep the rest.',
+        note=_COMMON_NOTE, technique=TECH, design_ref='DESIGN.md 4 (C11)'),
+    'C12': dict(
+        text='For the three set-similarity drivers: on every normal and every exceptional exit the tokenizer return_set flag equals its '
+             'entry value (frame obligations on all 17-18 paths per case) and no input object is written (pandas operations used are '
+             'functional in the model).',
+        note=_COMMON_NOTE + ' Histories: follows by induction from the per-call frame; state hidden inside third-party objects is not covered.',
+        technique=TECH, design_ref='DESIGN.md 4 (C12)'),
+    'C15': dict(
+        text='Every validate_* helper has an exact exceptional contract (raises X iff condition); the three drivers are proved to raise '
+             'TypeError / AssertionError exactly when a documented precondition fails, before any write, and never otherwise: all implicit '
+             'exceptions (KeyError, IndexError, ZeroDivisionError, pandas shape errors) are discharged as safety obligations.',
+        note=_COMMON_NOTE + ' Known findings D8 (thresholds below 1e-150) and D10 (output name equal to _id) are recorded.',
+        technique=TECH, design_ref='DESIGN.md 4 (C15)'),
+})
+
 _PENDING = 'check not registered yet in this session (contracts under construction); not claimed'
 NOT_APPLICABLE = dict((p, _PENDING) for p in
-                      ['C01', 'C02', 'C03', 'C04', 'C05', 'C06', 'C07', 'C08', 'C09', 'C10', 'C11', 'C12', 'C13',
-                       'C14', 'C15'])
+                      ['C03', 'C04', 'C05', 'C06', 'C07', 'C13', 'C14'])
 NOT_APPLICABLE['C16'] = ('converter.py is a dtype dispatch whose whole observable behaviour is pandas semantics '
                          '(astype(str), Series.update, copy); a contract proof would consist of assumed pandas contracts only '
                          'and cannot decide the property (DESIGN.md 5)')
